@@ -1,17 +1,17 @@
 CONSTANTS
-  Sides = {"client", "server"}
-  MaxSid = 3
-  MaxFrames = 8
+  Sides = {"client"}
+  MaxSid = 1
+  MaxFrames = 4
   MinFrames = 0
   Names = {"a"}
   BodyPlans <- PlansTiny
   DataCuts = {3}
-  Conts = {0, 1}
+  Conts = {0}
   MaxOther = 0
-  MaxGoAway = 1
-  AllowUnnamed = TRUE
+  MaxGoAway = 0
+  AllowUnnamed = FALSE
   AllowReqTrailers = FALSE
-  AllowClientGoAway = TRUE
+  AllowClientGoAway = FALSE
   AllowTimer = TRUE
   AllowEarlyEnd = FALSE
   MaxCall = 4
@@ -21,7 +21,6 @@ CONSTANTS
   EndKinds = {"close"}
   KeepCalls = FALSE
   Variant = "intended"
-INIT Init
-NEXT Next
-VIEW ViewNoCalls
-INVARIANTS TypeOK Agrees EnvWellFormed NeverBroken HpackInSync Transparent EachNamedStreamOnce StreamsAgree
+SPECIFICATION Spec
+INVARIANTS TypeOK
+PROPERTIES HeldBackIsReleased TransparentStep
